@@ -152,6 +152,13 @@ def check_case(f, rec):
     o1, o2 = observed_tables(p1, ID), observed_tables(p2, ID)
     if o1 != o2 or [type(x) for _, ls in o1 for l in ls for x in l["params"]] != [type(x) for _, ls in o2 for l in ls for x in l["params"]]:
         raise Mismatch("C05:expansion-differs", "tables of the file and of its textual expansion differ", o2, o1)
+    # the same text with every Define value changed: nothing of the first parse may be remembered
+    f3 = copy.deepcopy(f)
+    for s_ in f3["stmts"]:
+        if s_["k"] == "define":
+            s_["v"] = neg_literal(s_["v"]) if float(s_["v"]) != 0 else "7.25"
+    p3 = make_parser(G.render(f3), ID)
+    compare_tables(ID, p3, R.all_tables(f3))
     with impl(ID, "dict_definitions"):
         dd = p1.dict_definitions()
     if dd != R.defines(f) or not all(type(v) is float for v in dd.values()):
